@@ -9,24 +9,16 @@
 From Coq Require Import NArith List Bool.
 Import ListNotations.
 Require Import SR.Base.Res SR.Spec.Dde SR.Model.Structure SR.Proofs.StructureP.
-
-Definition upper (c : N) : N := if ((97 <=? c) && (c <=? 122))%N then (c - 32)%N else c.
-
-Definition up_spec (l : list entry) : list (N * list N * option (list N)) :=
-  map (fun d => (lvl_num (dlv d), map upper (dde_name (de d)), option_map (map upper) (eredef (de d)))) (kept_of l).
-
-Definition ent (a b : N) (name : str) (red : option str) (pic : bool) : entry :=
-  {| elv := (a, b); ename := Some name; efill := None; eredef := red; epic := pic; eocc := false; etext := [] |}.
-
-Definition n_fld_a_lower : str := [102; 108; 100; 45; 97]%N.     (* fld-a *)
-Definition n_fld_a_upper : str := [70; 76; 68; 45; 65]%N.        (* FLD-A *)
-
-(* 01 R.  05 fld-a PIC X.  05 B REDEFINES FLD-A PIC X. *)
-Definition witness7 : list entry :=
-  [ent 48 49 [82%N] None false; ent 48 53 n_fld_a_lower None true; ent 48 53 [66%N] (Some n_fld_a_upper) true]%N.
-(* the same with the clause spelled like the declaration *)
-Definition witness7_same_case : list entry :=
-  [ent 48 49 [82%N] None false; ent 48 53 n_fld_a_lower None true; ent 48 53 [66%N] (Some n_fld_a_lower) true]%N.
+(* The definitions of this development that occur in theorem statements (Props/) live in Spec/RedefinesCaseWitness.v (audit item G1).
+   The abbreviations keep the qualified names RedefinesCaseP.name of other files resolving; they are parsing-only aliases. *)
+Require Export SR.Spec.RedefinesCaseWitness.
+Notation upper := SR.Spec.RedefinesCaseWitness.upper (only parsing).
+Notation up_spec := SR.Spec.RedefinesCaseWitness.up_spec (only parsing).
+Notation ent := SR.Spec.RedefinesCaseWitness.ent (only parsing).
+Notation n_fld_a_lower := SR.Spec.RedefinesCaseWitness.n_fld_a_lower (only parsing).
+Notation n_fld_a_upper := SR.Spec.RedefinesCaseWitness.n_fld_a_upper (only parsing).
+Notation witness7 := SR.Spec.RedefinesCaseWitness.witness7 (only parsing).
+Notation witness7_same_case := SR.Spec.RedefinesCaseWitness.witness7_same_case (only parsing).
 
 Lemma refuted_7 :
   Forall (fun e => two_digits (elv e) = true) witness7
